@@ -35,9 +35,10 @@ def minimise(prop, plan, cls, budget=300, keep_shape=None):
     that has a known finding, the finding shape: a new failure must not be minimised into the known one)"""
     from .prop import jdump
     tries = [0]
+    t_end = time.time() + 90  # and at most 90 s of wall clock (a plan with a huge payload takes tens of seconds to execute)
 
     def fails(p):
-        if tries[0] >= budget:
+        if tries[0] >= budget or time.time() > t_end:
             return False
         tries[0] += 1
         try:
